@@ -294,4 +294,18 @@ func wireRuns(run *vh.Run, n int) {
 		runE2E(run, sc, 6000+i)
 		run.Count("wire:random")
 	}
+	// stop requests while requests are under way in P2P: at every step of one fault-free scenario (thorough), at a few (quick)
+	sc := genWire(rng, false)
+	sc.wire = &wireCfg{swapAt: -1, remoteSd: sc.wire.remoteSd}
+	sc.faultPct, sc.fullOnly = 0, false
+	steps := runE2E(run, sc, 7000)
+	for st := 1; st <= steps+1 && e2eFails < 3; st++ {
+		if !run.Thorough() && st > 3 && st%7 != 0 {
+			continue
+		}
+		c := *sc
+		c.stopAt = st
+		runE2E(run, &c, 7000)
+		run.Count("wire:stop-injected")
+	}
 }
